@@ -217,7 +217,24 @@ def check(ctx):
     rm = repo.fn(f"{FCM}:FileCache.recover_memory")
     ctx.instance("C16-R5", rm.fq)
     rets = [r for r in walk_local(rm.node) if isinstance(r, ast.Return)]
-    ok = len(rets) == 1 and isinstance(rets[0].value, ast.Compare) and isinstance(rets[0].value.ops[0], ast.LtE) and "max_memory" in src(rets[0].value.comparators[0]) and "claim" in src(rets[0].value.left)
+    def _le(e, pol=True):
+        """(small side, large side) if e asserts small <= large: A <= B, B >= A, not A > B, not B < A"""
+        if isinstance(e, ast.UnaryOp) and isinstance(e.op, ast.Not):
+            return _le(e.operand, not pol)
+        if isinstance(e, ast.Compare) and len(e.ops) == 1:
+            a, b, op = e.left, e.comparators[0], e.ops[0]
+            if pol and isinstance(op, ast.LtE):
+                return a, b
+            if pol and isinstance(op, ast.GtE):
+                return b, a
+            if not pol and isinstance(op, ast.Gt):
+                return a, b
+            if not pol and isinstance(op, ast.Lt):
+                return b, a
+        return None
+    le = _le(rets[0].value) if len(rets) == 1 and rets[0].value is not None else None
+    cparam = [p for p in rm.params() if p != "self"][0] if len(rm.params()) > 1 else "claim"
+    ok = le is not None and "max_memory" in src(le[1]) and cparam in {n.id for n in ast.walk(le[0]) if isinstance(n, ast.Name)} and "current_memory_usage" in src(le[0])
     ctx.ob("C16-R5", rm.fq, "the capacity check result is `usage + claim <= max_memory`", ok, node=rm.node, construct="capacity predicate")
     pre = [n for n in rm.node.body if isinstance(n, ast.Assert)]
     ok = any("claim" in src(a.test) and "max_memory" in src(a.test) for a in pre)
